@@ -3,6 +3,10 @@
 //! observed = per executed schedule entry the scheduler outcome, the number of calls the thread
 //! has completed and the five pool counters, plus every call's result.  After the given schedule
 //! the threads are run to completion round robin; those steps are part of the executed schedule.
+//! The code as it is never blocks.  With the repair (allocate under a mutex, hook site 99 in front
+//! of it) a thread scheduled at 99 while another one is inside the critical section blocks (outcome
+//! 2); when the holder leaves, the harness waits for the blocked thread that gets the mutex to reach
+//! site 100 and reports it inside the same observation as outcome + 1000 * (thread + 1).
 //!
 //! replay line:  lim=<bytes> progs=<t0>|<t1>|.. sched=<t,t,..>     op = a:<pool>:<n> (allocate),
 //!   r:<pool>:<n> (release), g:<k>:<pool>:<n> (release only if this thread's call k was an
